@@ -243,8 +243,9 @@ def gradient_relations(res, rng, n_mesh, stats):
                           [(1, 1, 1), (2, 1, 1), (2, 2, 1), (2, 2, 2), (3, 2, 1), (3, 2, 2), (3, 3, 3), (4, 4, 4), (4, 2, 1)])
         maker = mg.hex_block if m % 2 == 0 else mg.tet_block
         scale = tuple(rng.choice([0.5, 1.0, 3.0]) for _ in range(3))
+        shear = tuple(rng.uniform(-0.7, 0.7) for _ in range(3)) if rng.random() < 0.5 else (0.0, 0.0, 0.0)
         coords, elements, _ = maker(*dims, rng, jitter=rng.choice([0.0, 0.1, 0.2]), scale=scale,
-                                    origin=tuple(rng.uniform(-5, 5) for _ in range(3)))
+                                    origin=tuple(rng.uniform(-5, 5) for _ in range(3)), shear=shear)
         n = len(coords)
         g, c = rand_field(rng)
         nonlin = [math.sin(p[0]) + p[1] * p[2] + 0.3 * p[0] ** 2 - p[2] for p in coords]
@@ -532,7 +533,8 @@ def surface_relations(res, rng, n, stats):
         dims = rng.choice([(1, 1, 1), (2, 1, 1), (2, 2, 1), (2, 2, 2), (3, 2, 2), (3, 3, 3)][:5 if n < 8 else 6])
         coords, elements, boundary = mg.hex_block(*dims, rng, jitter=rng.choice([0.0, 0.1, 0.15]),
                                                   scale=tuple(rng.choice([0.5, 1.0, 2.0]) for _ in range(3)),
-                                                  origin=tuple(rng.uniform(-3, 3) for _ in range(3)))
+                                                  origin=tuple(rng.uniform(-3, 3) for _ in range(3)),
+                                                  shear=tuple(rng.uniform(-0.7, 0.7) for _ in range(3)) if m % 2 else (0.0, 0.0, 0.0))
         kind = mg.ID_MAPS[m % len(mg.ID_MAPS)]
         ids = mg.id_map(kind, len(coords), rng)
         eids = mg.id_map(rng.choice(['contiguous', 'gaps', 'shuffled', 'zero_based']), len(elements), rng)
@@ -588,7 +590,7 @@ def run(res):
                         'HotSpot model values are integers and limit_frac dyadic in the correspondence (exact in doubles); arbitrary doubles only against the Python reference',
                         'scipy griddata and the solid-angle surface detection are not modelled: relations on the implementation only',
                         'duplicate (element_id, node_id) rows and NaN values are outside the property']
-    res.cov['rule'] = ('perturbed hexahedral blocks up to 3x2x2 (quick) / 4x4x4 (thorough) and their 5-tetrahedra splits, node-id maps '
+    res.cov['rule'] = ('perturbed (jitter <= 0.2 cell), anisotropically scaled and sheared hexahedral blocks up to 3x2x2 (quick) / 4x4x4 (thorough) and their 5-tetrahedra splits, node-id maps '
                        '{1..N, offset, gaps, reversed, shuffled, zero based, sparse shuffled}, element-id maps, element blocks shuffled, index levels flipped, '
                        'random linear fields (15 % constant) and one non-linear field for renumbering; hot spots: random (element,node) row sets with small integer '
                        'values (ties) and block meshes with 1-3 peaks, limit_frac k/q (q | 16) incl. 0 and > 1, 20 % artefact thresholds; non-trivial = '
@@ -614,12 +616,12 @@ def run(res):
         except Exception as e:   # noqa: BLE001
             res.oblige('certificates could be generated and run', False, repr(e))
     # D2 hot spot correspondence (model = implementation) + reference semantics
-    hotspot_stage(res, rng, 250 if quick else 2500, 50 if quick else 500, 150 if quick else 2500, stats)
+    hotspot_stage(res, rng, 400 if quick else 2500, 80 if quick else 500, 300 if quick else 2500, stats)
     # D3 relations on the implementation (the property itself) -- always
     nv0 = len(res.violations)
-    gradient_relations(res, rng, 8 if quick else 40, stats)
-    mapping_relations(res, rng, 10 if quick else 80, stats)
-    surface_relations(res, rng, 7 if quick else 28, stats)
+    gradient_relations(res, rng, 12 if quick else 40, stats)
+    mapping_relations(res, rng, 15 if quick else 80, stats)
+    surface_relations(res, rng, 14 if quick else 28, stats)
     k = sum(stats.values())
     res.add_cases(k, nontrivial=0)
     res.cov['impl_relation_evaluations'] = dict(stats)
@@ -631,7 +633,7 @@ def replay(res, rp):
     setup(res)
     v = rp.get('violation', {})
     what = v.get('what')
-    bad = None
+    bad, new = None, True
     if what in (WHAT_GRAD, WHAT_G3) and 'mesh' in v:
         m = v['mesh']
         acc = m.get('accessor', 'gradient' if what == WHAT_GRAD else 'gradient_3D')
@@ -647,7 +649,7 @@ def replay(res, rp):
             bad = st != 'ok' or any(abs(out[k][j] - g[j]) > 1e-8 * (1 + max(abs(x) for x in g)) for k in out for j in range(3))
         print('replay:', acc, st, 'violates' if bad else 'holds')
         if bad:
-            res.violation(what, mesh=m, observed=st if st != 'ok' else {str(k): x for k, x in out.items()})
+            new = res.violation(what, mesh=m, observed=st if st != 'ok' else {str(k): x for k, x in out.items()})
     elif what == WHAT_HS:
         pairs = [tuple(x) for x in v['rows']]
         art = v.get('artefact_threshold')
@@ -659,11 +661,13 @@ def replay(res, rp):
         bad = out != spec
         print('replay: hotspot', out, 'expected', spec)
         if bad:
-            res.violation(what, rows=v['rows'], values=v['values'], limit_frac=v['limit_frac'], artefact_threshold=art,
-                          observed=out, expected=spec)
+            new = res.violation(what, rows=v['rows'], values=v['values'], limit_frac=v['limit_frac'], artefact_threshold=art,
+                                observed=out, expected=spec)
     if bad is None:
         run(res)
         return res.finish()
     res.add_cases(1, 0)
-    res.oblige('replayed input satisfies the property', not bad)
+    if bad and not new:
+        res.known.append('replayed input belongs to a listed known finding: %s' % ', '.join(res.known_hits))
+    res.oblige('replayed input satisfies the property (or is a listed known finding)', not (bad and new))
     return res.finish()
